@@ -23,7 +23,7 @@ def cases(ctx):
 
 def run(ctx):
     for c in ('census-quiescent', 'census-after-close', 'bulk-read-census-points', 'lazy-opener-census-points',
-              'memory-probes', 'long-run-calls'):
+              'memory-probes', 'memory-probes-highly-compressible', 'long-run-calls'):
         ctx.require(c)
     ctx.map(histories.run_history, cases(ctx))
     ctx.map(resources.run_probe, resources.probe_cases(ctx))
